@@ -32,7 +32,7 @@ def explain(path):
                 for so in op[3]:
                     out.append("      s.%s" % {"call": "__call__(%s)", "invert": "invert(%s)", "domain": "domain()%s",
                                                 "nice": "nice(%s)", "ticks": "ticks(%s) + tickFormat + positions",
-                                                "copy": "copy()%s", "nice_iv": "nice(d3_time[%r], skip)", "clamp": "clamp(%s)"}[so[0]]
+                                                "copy": "copy()%s", "nice_iv": "nice(d3_time[%r], skip)", "clamp": "clamp(%s)", "ticks_iv": "ticks(d3_time[%r], skip)"}[so[0]]
                                % (so[1] if len(so) > 1 else ""))
             elif op[0] == "timeline":
                 out.append("%2d: Timeline%s(%d items, options=%s).export()" % (i, op[1].upper(), len(op[2]), _opts(op[3])))
@@ -42,8 +42,14 @@ def explain(path):
         out.append("# pool[0] = LinearScale(); observation mode: %s" % (plan.get("observe", "all"),))
         for i, op in enumerate(plan["ops"]):
             k = op[0]
-            if k == "new":
+            if k == "new" and len(op) > 1:
+                out.append("%2d: pool.append(LinearScale(%s, %s, None, %s))" % (i, op[2], op[3], op[4]))
+            elif k == "new":
                 out.append("%2d: pool.append(LinearScale())" % i)
+            elif k == "chain":
+                out.append("%2d: pool[%d].domain(%s).range(%s).clamp(%s)" % (i, op[1], op[2], op[3], op[4]))
+            elif k == "interp":
+                out.append("%2d: pool[%d].interpolate(); .interpolate(d3_interpolate); .rangeRound([0, 1])" % (i, op[1]))
             elif k == "copy":
                 out.append("%2d: pool.append(pool[%d].copy())" % (i, op[1]))
             elif k == "drop":
@@ -98,6 +104,8 @@ def explain(path):
                 out.append("%2d: tl[%d].export(%r%s)%s" % (i, op[1], op[2], ", build_pdf=True" if op[3] else "", f))
             elif k == "replace":
                 out.append("%2d: slot %d gets a new spec: %s" % (i, op[1], _opts(op[2])[:300]))
+            elif k == "poke":
+                out.append("%2d: tl[%d]: helpers called and attributes read (get_nodes, compute, timePos, scale getters, ticks)" % (i, op[1]))
             elif k == "clock_advance":
                 out.append("%2d: simulated clock += %d s" % (i, op[1]))
     out.append("# detail: " + json.dumps(doc["violation"].get("detail"), sort_keys=True)[:1200])
